@@ -1683,12 +1683,104 @@ static C04Res c17Once(const Instance& I, const ParamSet& cfg, int loadMode, uint
    C04Res R;
    Rng g(1717, subseed, 17);
    const LPModel& M = I.M;
-   int scenario = g.range(0, 9);
+   int scenario = g.range(0, 13);
    auto mk = [&](SoPlex & sp)
    {
       applyCommon(sp, cfg, M, loadMode);
       sp.setIntParam(SoPlex::ITERLIMIT, 100000, true);
    };
+   if(scenario >= 10)
+   {
+      // (scenarios 10..13) state leaking between solves: object A solves the LP, is then modified through the API and solved again without a basis;
+      // object B receives the same LP and the same modifications but never saw the first solve.  Bit-identical paths are not claimed
+      // across histories (persistent scaling factors legitimately differ); the verdict and the optimal value are, and they are judged
+      // only where the modified LP has a certified, tolerance-robust class and the fresh object itself agrees with it.
+      uint64_t scen = g.next();
+      int nmod = g.range(1, 4);
+      SoPlex a, b;
+      mk(a);
+      mk(b);
+      a.optimize();
+      for(int t = 0; t < nmod; t++)
+      {
+         Rng ha(77, scen, (uint64_t)t), hb(77, scen, (uint64_t)t);
+         bool generic = ha.chance(0.5);
+         hb.chance(0.5);       // keep both streams aligned
+         if(generic)
+         {
+            randomModification(ha, a);
+            randomModification(hb, b);
+         }
+         else
+         {
+            // move one side of a row (or one bound) by a sizeable integer amount: makes the earlier optimum / earlier bounds on the
+            // optimal value stale in a definite direction
+            int m_ = a.numRows(), n_ = a.numCols();
+            int w = ha.range(0, 2);
+            double d = (double)(ha.chance(0.5) ? ha.range(1, 12) : -ha.range(1, 12));
+            for(SoPlex* sp : {&a, &b})
+            {
+               if(w <= 1 && m_ > 0)
+               {
+                  int i = (int)(scen % (uint64_t)m_);
+                  double l = sp->lhsReal(i), r = sp->rhsReal(i);
+                  if(l > -soplex::infinity && (w == 0 || r >= soplex::infinity))
+                  {
+                     double nl = l + d;
+                     sp->changeLhsReal(i, r < soplex::infinity && nl > r ? r : nl);
+                  }
+                  else if(r < soplex::infinity)
+                  {
+                     double nr = r + d;
+                     sp->changeRhsReal(i, l > -soplex::infinity && nr < l ? l : nr);
+                  }
+               }
+               else if(n_ > 0)
+               {
+                  int j = (int)(scen % (uint64_t)n_);
+                  double l = sp->lowerReal(j), u = sp->upperReal(j);
+                  if(l > -soplex::infinity)
+                  {
+                     double nl = l + d;
+                     sp->changeLowerReal(j, u < soplex::infinity && nl > u ? u : nl);
+                  }
+                  else if(u < soplex::infinity) sp->changeUpperReal(j, u + d);
+               }
+            }
+         }
+      }
+      a.clearBasis();
+      if(snapLP(a) != snapLP(b))
+      {
+         if(count) S.count("c17.history.lp_mismatch_skipped");      // accessor-level disagreement is C06's subject, not judged here
+         return R;
+      }
+      Instance I2;
+      I2.M = readBackReal(b);
+      if(!allExactDoubles(I2.M) || I2.M.m == 0 || M.family == "badly-scaled") return R;     // badly scaled data: no tolerance-robust class
+      ensureTruth(I2);
+      int it0 = a.numIterations(), st0 = (int)a.status();
+      a.optimize();
+      b.optimize();
+      if(verbose && count)
+         fprintf(stderr, "history scenario: first solve %s (%d it), %d modifications, LP now\n%s\nA: %s (%d it) B: %s (%d it)\n", statusName(st0), it0, nmod,
+                 I2.M.toLPText().c_str(), statusName((int)a.status()), a.numIterations(), statusName((int)b.status()), b.numIterations());
+      if(count) S.count("c17.history.compared");
+      if(!(I2.T.known && I2.T.robust)) return R;
+      int tst = I2.T.status == REF_OPTIMAL ? (int)SPX::OPTIMAL : I2.T.status == REF_INFEASIBLE ? (int)SPX::INFEASIBLE : (int)SPX::UNBOUNDED;
+      int sa = (int)a.status(), sb = (int)b.status();
+      if(count) S.count("c17.history.certified");
+      if(!definiteStatus(sb) || !sameVerdict(sb, tst)) return R;       // the fresh object itself is off: C01/C02 territory
+      if(tst == SPX::OPTIMAL && std::fabs(b.objValueReal() - dq(I2.T.objval)) > 1e-6 * (1.0 + std::fabs(dq(I2.T.objval)))) return R;
+      if(count) S.count("c17.history.judged");
+      if(definiteStatus(sa) && !sameVerdict(sa, tst))
+         R.set(std::string("history-dependent.status.") + statusName(sa), std::string("after an earlier solve, modifications and clearBasis() the object reports ") + statusName(
+                  sa) + " where a new object with the same LP and parameters reports " + statusName(sb) + " (certified: " + statusName(tst) + ")");
+      else if(sa == SPX::OPTIMAL && tst == SPX::OPTIMAL && std::fabs(a.objValueReal() - dq(I2.T.objval)) > 1e-6 * (1.0 + std::fabs(dq(I2.T.objval))))
+         R.set("history-dependent.objective", "after an earlier solve, modifications and clearBasis() the object reports optimal value " + ds(a.objValueReal()) +
+               " where a new object with the same LP reports " + ds(b.objValueReal()) + " (certified " + ds(dq(I2.T.objval)) + ")");
+      return R;
+   }
    if(scenario <= 2)
    {
       // twins
@@ -1786,7 +1878,16 @@ static C04Res c17Once(const Instance& I, const ParamSet& cfg, int loadMode, uint
             if(count) S.count("c17.copy_resolve_compared");
             int sa = (int)A->status(), sb = (int)B->status();
             bool da = definiteStatus(sa), db = definiteStatus(sb);
-            if(da && db && !sameVerdict(sa, sb)) R.set(std::string("copy-resolve-status.") + how, std::string("source re-solved: ") + statusName(sa) + ", copy re-solved: " + statusName(sb));
+            if(da && db && !sameVerdict(sa, sb))
+            {
+               // two different definite verdicts: only a violation where the LP has one certified, tolerance-robust class (an LP that is
+               // both primal and dual infeasible, or sits on a tolerance boundary, may legitimately be classified either way)
+               Instance I2;
+               I2.M = readBackReal(*B);
+               if(allExactDoubles(I2.M) && M.family != "badly-scaled") ensureTruth(I2);     // badly scaled data: no tolerance-robust class
+               if(I2.T.known && I2.T.robust) R.set(std::string("copy-resolve-status.") + how, std::string("source re-solved: ") + statusName(sa) + ", copy re-solved: " + statusName(sb));
+               else if(count) S.count("c17.note.copy_resolve_verdicts_differ_on_uncertified_lp");
+            }
             else if(sa == SPX::OPTIMAL && sb == SPX::OPTIMAL)
             {
                double va = A->objValueReal(), vb = B->objValueReal();
